@@ -47,7 +47,7 @@ FmtsOf(s) == [k \in 1..Len(s) |-> SpecOf(s[k])]
 CfgOf(ev) ==
     [type |-> ev.cfg.type, rows |-> ev.cfg.rows, cols |-> ev.cfg.cols,
      nf |-> ev.cfg.nf, ext |-> ev.cfg.ext, set |-> ev.cfg.set,
-     fmts |-> FmtsOf(ev.cfg.fmts), z0c |-> ev.cfg.z0c]
+     fmts |-> FmtsOf(ev.cfg.fmts), z0c |-> ev.cfg.z0c, z0p |-> ev.cfg.z0p]
 
 NonWarn(cb) == {k \in 1..Len(cb) : cb[k].cat # "WARNING"}
 
@@ -90,6 +90,10 @@ TSave3 ==
     IN /\ ev.e = "Save3"
        /\ nbad' = nbad + SumChecks(<<
             Chk(DimsFit(c.type, c.rows, c.cols), <<l, "Save3", "cfg", "dims">>),
+            \* the impedance class is the one the equality pattern implies
+            Chk(Len(c.z0p) = c.cols /\
+                Z0Class(c) = Z0ClassOf(KindOfClass(c.z0c), c.z0p),
+                <<l, "Save3", "cfg", "z0 pattern">>),
             \* the theorem of C06: the three entry points agree ...
             Chk(ev.ck.ok = ev.sv.ok, <<l, "Save3", "cksaveVsSave", v>>),
             Chk(ev.fs.ok = ev.sv.ok, <<l, "Save3", "fsaveVsSave", v>>),
